@@ -46,6 +46,8 @@ type c03Case struct {
 	filler      bool   // an ordinary transfer that only moves the IBTPs to other positions of a larger block
 	pairKey     string // from>to whose counters must not move for invalid/direct cases
 	from, to    string
+	toRemote    bool   // request to a service on the remote hub
+	receiptIdx  uint64 // != 0: a receipt relayed from the remote hub for the request with this index
 }
 
 func c03Property(t *rapid.T) {
@@ -139,9 +141,91 @@ func c03Property(t *rapid.T) {
 		ops = append(ops, fmt.Sprintf("  rule episode on %s: update to %s approved=%v -> master rule %s, chain %s", chain, cand, approve, ruleOf[chain], chainStatus(chain)))
 	}
 
+	// requests to the remote hub that were accepted, and those among them whose receipt was accepted
+	remoteReq, remoteDone := map[string]uint64{}, map[string]uint64{}
 	genCase := func() *c03Case {
 		c := &c03Case{}
-		switch rapid.SampledFrom([]string{"local", "local", "local", "local", "remote", "remote", "direct", "unregistered"}).Draw(t, "entry") {
+		entry := rapid.SampledFrom([]string{"local", "local", "local", "local", "remote", "remote", "direct", "unregistered", "to-remote", "remote-receipt", "remote-receipt"}).Draw(t, "entry")
+		rsrc := rapid.SampledFrom([]string{"chainH", "chainW"}).Draw(t, "rsrc")
+		rpair := sim.FullID(bxh, rsrc, "s1") + ">" + sim.FullID(sim.RemoteHubID, "chainR", "s1")
+		if entry == "remote-receipt" && remoteReq[rpair] <= remoteDone[rpair] {
+			entry = "to-remote" // nothing outstanding on this pair
+		}
+		switch entry {
+		case "to-remote":
+			// request of a local service to a service on the remote hub (verified by the source chain's rule)
+			c.from, c.to = sim.FullID(bxh, rsrc, "s1"), sim.FullID(sim.RemoteHubID, "chainR", "s1")
+			c.pairKey = rpair
+			rule := ruleOf[rsrc]
+			proof, hash, valid, class := drawProof(rule)
+			idx := nextIdx[c.pairKey] + 1
+			content := sha256.Sum256([]byte(fmt.Sprintf("content-%d", idx)))
+			pd, _ := (&pb.Payload{Hash: content[:]}).Marshal()
+			ib := &pb.IBTP{From: c.from, To: c.to, Index: idx, TimeoutHeight: 0, Proof: hash, Type: pb.IBTP_INTERCHAIN, Payload: pd}
+			c.tx = w.IBTP(key(rsrc), ib, proof)
+			c.expectValid = valid
+			c.mustAccept = valid && usable[rsrc]
+			c.toRemote = true
+			c.desc = fmt.Sprintf("IBTP request %s->%s idx=%d rule=%s proof=%s", c.from, c.to, idx, rule, class)
+			classesSeen["to-remote/"+class] = true
+		case "remote-receipt":
+			// the receipt comes back through the remote hub, multi-signed by its validators over the receipt as it is
+			c.from, c.to = sim.FullID(bxh, rsrc, "s1"), sim.FullID(sim.RemoteHubID, "chainR", "s1")
+			c.pairKey = rpair
+			idx := remoteReq[rpair]
+			c.receiptIdx = idx
+			content := sha256.Sum256([]byte(fmt.Sprintf("content-%d", idx)))
+			pd, _ := (&pb.Payload{Hash: content[:]}).Marshal()
+			types3 := []pb.IBTP_Type{pb.IBTP_RECEIPT_SUCCESS, pb.IBTP_RECEIPT_FAILURE, pb.IBTP_RECEIPT_ROLLBACK}
+			status3 := []pb.TransactionStatus{pb.TransactionStatus_SUCCESS, pb.TransactionStatus_FAILURE, pb.TransactionStatus_ROLLBACK}
+			ti := rapid.IntRange(0, 2).Draw(t, "receiptType")
+			ib := &pb.IBTP{From: c.from, To: c.to, Index: idx, Type: types3[ti], Payload: pd}
+			vals := sim.RemoteValidators()
+			sign := func(k *sim.Key, d []byte) []byte {
+				s, err := k.Priv.(*ecdsa.PrivateKey).Sign(d)
+				if err != nil {
+					panic(err)
+				}
+				return s
+			}
+			class := rapid.SampledFrom([]string{"signed-as-it-is", "signed-as-it-is", "relabelled", "relabelled", "one-only", "other-index"}).Draw(t, "rcClass")
+			status := status3[ti]
+			var sigs [][]byte
+			valid := false
+			switch class {
+			case "signed-as-it-is":
+				d := multiSignDigest(ib, status, content[:])
+				sigs = [][]byte{sign(vals[0], d), sign(vals[1], d), sign(vals[3], d)}
+				valid = true
+			case "relabelled":
+				// the validators signed the receipt with another type (and the status that goes with it); the relayer
+				// changed the type afterwards
+				tj := (ti + 1 + rapid.IntRange(0, 1).Draw(t, "signedType")) % 3
+				ib2 := *ib
+				ib2.Type = types3[tj]
+				if rapid.Bool().Draw(t, "keepSignedStatus") {
+					status = status3[tj]
+				}
+				d := multiSignDigest(&ib2, status, content[:])
+				sigs = [][]byte{sign(vals[0], d), sign(vals[1], d), sign(vals[2], d)}
+				class = fmt.Sprintf("relabelled(signed %s)", types3[tj])
+			case "one-only":
+				d := multiSignDigest(ib, status, content[:])
+				sigs = [][]byte{sign(vals[2], d)}
+			default:
+				ib2 := *ib
+				ib2.Index = idx + 1
+				d := multiSignDigest(&ib2, status, content[:])
+				sigs = [][]byte{sign(vals[0], d), sign(vals[1], d), sign(vals[2], d)}
+			}
+			bp := &pb.BxhProof{TxStatus: status, MultiSign: sigs}
+			proof, _ := bp.Marshal()
+			ib.Proof = sim.ProofHash(proof)
+			c.tx = w.IBTP(key(sim.RemoteHubID), ib, proof)
+			c.expectValid = valid
+			c.mustAccept = false // whether a verified receipt is taken depends on the transaction's state as well
+			c.desc = fmt.Sprintf("inter-hub receipt %s for %s->%s idx=%d multisign=%s", types3[ti], c.from, c.to, idx, class)
+			classesSeen["remote-receipt/"+strings.SplitN(class, "(", 2)[0]] = true
 		case "local":
 			src := rapid.SampledFrom([]string{"chainH", "chainW", "chainU", "chainL"}).Draw(t, "src")
 			rule := ruleOf[src]
@@ -330,7 +414,7 @@ func c03Property(t *rapid.T) {
 			}
 			if c.direct || !c.expectValid {
 				if !c.direct {
-					nonTrivial = nonTrivial || strings.Contains(c.desc, "rule-false") || strings.Contains(c.desc, "rule-trap") || strings.Contains(c.desc, "one-repeated")
+					nonTrivial = nonTrivial || strings.Contains(c.desc, "rule-false") || strings.Contains(c.desc, "rule-trap") || strings.Contains(c.desc, "one-repeated") || strings.Contains(c.desc, "relabelled")
 				} else {
 					nonTrivial = true
 				}
@@ -352,13 +436,23 @@ func c03Property(t *rapid.T) {
 						}
 					}
 				}
-				if st, _ := w.Status(sim.IBTPID(c.from, c.to, countersBefore[c.pairKey][0]+1)); st >= 0 && !c.direct {
+				if c.receiptIdx != 0 {
+					if st, _ := w.Status(sim.IBTPID(c.from, c.to, c.receiptIdx)); st != stBEGIN {
+						f.fail("%s changed the status of the transaction to %s", c.desc, stName[st])
+					}
+				} else if st, _ := w.Status(sim.IBTPID(c.from, c.to, countersBefore[c.pairKey][0]+1)); st >= 0 && !c.direct {
 					f.fail("%s created a transaction record (status %s)", c.desc, stName[st])
 				}
 			} else {
 				allInvalid = false
-				if rs[i].IsSuccess() {
+				if rs[i].IsSuccess() && c.receiptIdx != 0 {
+					remoteDone[c.pairKey] = c.receiptIdx
+					classesSeen["remote-receipt-accepted"] = true
+				} else if rs[i].IsSuccess() {
 					nextIdx[c.pairKey]++
+					if c.toRemote {
+						remoteReq[c.pairKey] = nextIdx[c.pairKey]
+					}
 				} else if c.mustAccept {
 					f.fail("IBTP with a valid proof, next index and available services was rejected: %s: %s", c.desc, rs[i].Ret)
 				}
